@@ -98,6 +98,10 @@ pub mod ext {
     /// ASSUMED: cloning an Arc yields a handle to the same object (spec-equal to the original)
     pub assume_specification<T: ?Sized, A: std::alloc::Allocator + Clone> [<std::sync::Arc<T, A> as Clone>::clone] (a: &std::sync::Arc<T, A>) -> (r: std::sync::Arc<T, A>)
         ensures r == *a;
+    // (not used by the unchanged tree; an edit may start to use them) ASSUMED: nothing -- the answers are arbitrary
+    pub assume_specification<T: ?Sized, A: std::alloc::Allocator> [std::sync::Arc::<T, A>::strong_count] (a: &std::sync::Arc<T, A>) -> (r: usize);
+    pub assume_specification<T: ?Sized, A: std::alloc::Allocator> [std::rc::Rc::<T, A>::strong_count] (a: &std::rc::Rc<T, A>) -> (r: usize);
+    pub assume_specification [std::thread::panicking] () -> (r: bool);
     /// std::mem::drop: no effect the contracts can see
     pub assume_specification<T: std::marker::Destruct> [std::mem::drop] (x: T);
     // ---- small std combinators that plausible edits of calloop use (ASSUMED, standard meaning)
